@@ -65,7 +65,8 @@ def g_array(rng, maxdim=4):
         data = [fbits(g_float(rng)) for _ in range(r * c)]
     else:
         data = [[fbits(g_float(rng)), fbits(g_float(rng))] for _ in range(r * c)]
-    return ["array", dt, r, c, data]
+    # memory layout of the same logical array: C order, Fortran order, a transposed view, a strided slice
+    return ["array", dt, r, c, data, rng.choice(["C", "C", "F", "T", "S"])]
 
 
 def g_sym(rng, names):
@@ -148,12 +149,23 @@ def build_value(v, names):
     if t == "list":
         return [build_value(x, names) for x in v[1]]
     if t == "array":
-        _, dt, r, c, data = v
+        dt, r, c, data = v[1:5]
+        layout = v[5] if len(v) > 5 else "C"
         if dt == "int":
-            return np.array(data, dtype=np.int64).reshape(r, c)
-        if dt == "float":
-            return np.array([bitsf(h) for h in data], dtype=np.float64).reshape(r, c)
-        return np.array([complex(bitsf(a), bitsf(b)) for a, b in data], dtype=np.complex128).reshape(r, c)
+            a = np.array(data, dtype=np.int64).reshape(r, c)
+        elif dt == "float":
+            a = np.array([bitsf(h) for h in data], dtype=np.float64).reshape(r, c)
+        else:
+            a = np.array([complex(bitsf(x), bitsf(y)) for x, y in data], dtype=np.complex128).reshape(r, c)
+        if layout == "F":
+            return np.asfortranarray(a)
+        if layout == "T":
+            return a.T.copy().T
+        if layout == "S":
+            big = np.zeros((r, 2 * c), dtype=a.dtype)
+            big[:, ::2] = a
+            return big[:, ::2]
+        return a
     if t == "sym":
         return sym.sympify(v[1], locals={n: sym.Symbol(n) for n in names})
     raise ValueError(v)
